@@ -8,11 +8,113 @@ from types import SimpleNamespace
 
 from ..alg import Poly, Q, is_zero
 from ..repo import AnalysisError, dotted, norm_text
+from ..repo import FuncInfo
 from ..xeval import Interp, XObj, Opaque, Sink, XRaise, Uninterpretable
 from ..xarray import XArray, Lbl
 from .. import xeval
 
 SIMU = "EasyFEA.Simulations._simu._Simu"
+
+
+def beam_lineload_rule(ctx):
+    """R9.7: Beam.add_lineLoad (Euler-Bernoulli): Lagrange unknowns are forwarded to the generic integrator with their
+    own values; each Hermitian unknown is integrated with its own value against the beam N row of that unknown."""
+    repo = ctx.repo
+    r = ctx.rule("R9.7", "Euler-Bernoulli line load: every unknown is integrated with its own intensity (value list and unknown list stay aligned through the Lagrange/Hermitian split); Hermitian forces are sum_p wJ_p f_p N_beam[p, row(unknown), :] paired with the element assembly dofs", min_instances=4)
+    bcls = repo.cls("EasyFEA.Simulations._beam.Beam")
+    f = bcls.methods["add_lineLoad"]
+    eb = repo.cls("EasyFEA.FEM.Elems._beam.EULER_BERNOULLI2")
+    nPe, nPg, dof_n = 2, 2, 3
+    Nb = [[[Poly.var(f"B{p}_{rr}_{j}") for j in range(dof_n * nPe)] for rr in range(dof_n)] for p in range(nPg)]
+    Nl = [[Poly.var(f"N{p}{m}") for m in range(nPe)] for p in range(nPg)]
+    wJ = [Poly.var(f"w{p}") for p in range(nPg)]
+    conn = [3, 5]
+    allunk = ["x", "y", "rz"]
+    for kind in ("nodal", "constant"):
+        for unknowns in (["x", "y"], ["y", "x"], ["rz", "y"]):
+            log = {}
+            group = XObj(eb, dict(
+                nPe=nPe, connect=XArray((1, nPe), conn),
+                Get_Elements_Nodes=lambda nodes, exclusively=False, **k: (log.update(exclusively=exclusively), XArray((1,), [0]))[1],
+                Get_GaussCoordinates_e_pg=lambda mt, el=None: Opaque("coord"),
+                Get_weightedJacobian_e_pg=lambda mt=None: XArray((1, nPg), list(wJ)),
+                Get_beam_N_e_pg=lambda bs, *a, **k: XArray((1, nPg, dof_n, dof_n * nPe), [Nb[p][rr][j] for p in range(nPg) for rr in range(dof_n) for j in range(dof_n * nPe)]),
+                Get_N_pg=lambda mt=None: XArray((nPg, 1, nPe), [Nl[p][m] for p in range(nPg) for m in range(nPe)]),
+                _Get_assembly_e=lambda connect, d: XArray((1, dof_n * nPe), [Lbl("asm", j) for j in range(dof_n * nPe)]),
+            ))
+            obj = XObj(bcls, dict(
+                structure=SimpleNamespace(dim=2, dof_n=dof_n), problemType=Opaque("pt"), mesh=SimpleNamespace(Nn=8, groupElem=group),
+                _Check_dofs=lambda *a, **k: None, Get_unknowns=lambda pt=None: list(allunk),
+                _Bc_Add_Neumann=lambda pt, nodes, vals, dofs, unk, desc="": log.update(neumann=(nodes, vals, dofs, unk)),
+            ))
+            nodes_arg = XArray((3,), [7, 5, 3])
+            if kind == "nodal":
+                g = {u: [Poly.var(f"g{u}7"), Poly.var(f"g{u}5"), Poly.var(f"g{u}3")] for u in unknowns}
+                vals = [XArray((3,), g[u]) for u in unknowns]
+            else:
+                cst = {u: 7 + 4 * k for k, u in enumerate(unknowns)}
+                vals = [cst[u] for u in unknowns]
+            I = Interp(repo, extra_builtins={"callable": callable})
+
+            def hook(fn, args, kwargs, log=log):
+                if isinstance(fn, FuncInfo) and fn.name == "add_lineLoad" and fn.cls is not None and fn.cls is not bcls:
+                    log.setdefault("super", []).append((args[1], args[2]))
+                    return None
+                return NotImplemented
+
+            I.call_hook = hook
+            tag = f"{kind}:{','.join(unknowns)}"
+            r.instance(fn=f.qualname)
+            try:
+                I.call_function(f, [nodes_arg, vals, list(unknowns)], self_obj=obj)
+            except XRaise as e:
+                r.fail(f.qualname, tag, f.file, f.lineno, "Beam.add_lineLoad", f"{tag}: {e}")
+                continue
+            bad = None
+            lag = [u for u in unknowns if u in ("x", "rx")]
+            her = [u for u in unknowns if u not in ("x", "rx")]
+            sup = log.get("super", [])
+            if lag:
+                if len(sup) != 1 or list(sup[0][1]) != lag:
+                    bad = f"Lagrange unknowns {lag} are forwarded as {[list(s[1]) for s in sup]}"
+                else:
+                    for k, u in enumerate(lag):
+                        v = sup[0][0][k]
+                        want = vals[unknowns.index(u)]
+                        same = (v is want) or (not isinstance(v, XArray) and not isinstance(want, XArray) and v == want) or (isinstance(v, XArray) and isinstance(want, XArray) and list(v.data) == list(want.data))
+                        if not same:
+                            bad = f"unknown '{u}' is forwarded to the generic integrator with the intensity of another unknown"
+            elif sup:
+                bad = f"no Lagrange unknown but the generic integrator is called with {[list(s[1]) for s in sup]}"
+            neu = log.get("neumann")
+            if bad is None and her:
+                if neu is None:
+                    bad = "Hermitian unknowns produce no Neumann condition"
+                else:
+                    _, nv, nd, nu = neu
+                    nv, nd = XArray.from_nested(nv), XArray.from_nested(nd)
+                    n = dof_n * nPe
+                    if list(nu) != her or nv.size != n * len(her) or nd.size != n * len(her):
+                        bad = f"Neumann condition for unknowns {list(nu)} with {nv.size} values / {nd.size} dofs; expected {her} and {n * len(her)}"
+                    else:
+                        for k, u in enumerate(her):
+                            row = allunk.index(u)
+                            for j in range(n):
+                                if kind == "nodal":
+                                    gm = {7: g[u][0], 5: g[u][1], 3: g[u][2]}
+                                    fp = [sum((gm[conn[m]] * Nl[p][m] for m in range(nPe)), Poly()) for p in range(nPg)]
+                                else:
+                                    fp = [Poly.const(cst[u])] * nPg
+                                want = sum((wJ[p] * fp[p] * Nb[p][row][j] for p in range(nPg)), Poly())
+                                got = nv.data[j * len(her) + k]
+                                if not is_zero(got - want):
+                                    bad = f"unknown '{u}', element dof {j}: {got!r}, expected sum_p wJ_p f_{u}(x_p) N_beam[p,{row},{j}] = {want!r}"
+                                if nd.data[j * len(her) + k] != Lbl("asm", j):
+                                    bad = f"unknown '{u}', element dof {j} is paired with {nd.data[j * len(her) + k]!r}"
+            if bad:
+                r.fail(f.qualname, tag, f.file, f.lineno, "Beam.add_lineLoad", f"{tag}: {bad}")
+            else:
+                r.ok(f"{tag}: each unknown integrated with its own intensity")
 
 
 def run(ctx):
@@ -87,13 +189,14 @@ def run(ctx):
         obj.attrs["_Simu__Bc_evaluate"] = lambda coord, val, option="": XArray((1, nPg), list(fp))
         obj.attrs["Bc_dofs_nodes"] = lambda nodes, unknowns, pt=None: XArray((len(list(nodes)),), [Lbl("dof", int(n), unknowns[0]) for n in nodes])
         I = Interp(repo, extra_builtins={"callable": callable})
-        nodes_arg = XArray((2,), conn)
+        # the loaded node set is deliberately unsorted and larger than the element: values are matched to nodes by identity
+        nodes_arg = XArray((3,), [7, 5, 3])
         if kind == "function":
             values = [lambda x, y, z: 0]
             # python callables are opaque to the interpreter; the stub __Bc_evaluate supplies f at the Gauss points
         else:
             fm = [Poly.var("g3"), Poly.var("g5")]
-            values = [XArray((2,), fm)]
+            values = [XArray((3,), [Poly.var("g7"), fm[1], fm[0]])]
         try:
             vals, dofs, used = I.call_function(fI, [1, Opaque("pt"), nodes_arg, values, ["y"]], self_obj=obj)
         except XRaise as e:
@@ -137,6 +240,8 @@ def run(ctx):
                     r4.ok(f"{f.qualname}: {norm_text(n)}")
                 else:
                     r4.fail(f.qualname, f"exclusively:{norm_text(n)}", f.file, n.lineno, f.name, f"{norm_text(n)} does not select elements exclusively: a node set touching an element only partially would load it")
+
+    beam_lineload_rule(ctx)
 
     # ---- R9.5 point load
     r5 = ctx.rule("R9.5", "a concentrated load distributes its total over the selected nodes (divided by len(nodes) exactly once)", min_instances=1)
